@@ -62,6 +62,10 @@ INTEGER_decode_oer(const asn_codec_ctx_t *opt_codec_ctx,
         size_t useful_size;
 
         /* Check most significant bit */
+        if(req_bytes == 0) {
+            /* No octets to look at: a zero-length INTEGER is not valid */
+            ASN__DECODE_FAILED;
+        }
         msb = *(const uint8_t *)ptr >> 7; /* yields 0 or 1 */
         useful_size = msb + req_bytes;
         st->buf = (uint8_t *)MALLOC(useful_size + 1);
